@@ -589,6 +589,58 @@ impl StShape for purl::PackageType {
     }
 }
 
+/// What a session (PurlSystem) needs besides: the serde steps and, for the typed PURL, combined names.
+pub trait SysShape: StShape {
+    fn ser(p: &GenericPurl<Self>) -> String;
+    fn de(s: &str) -> Result<GenericPurl<Self>, String>;
+    fn combined(_t: &str, _c: &str) -> Option<GenericPurlBuilder<Self>> {
+        None
+    }
+    fn combined_name(_p: &GenericPurl<Self>) -> Value {
+        Value::Null
+    }
+}
+macro_rules! sys_shape_serde {
+    () => {
+        #[cfg(feature = "sd")]
+        fn ser(p: &GenericPurl<Self>) -> String {
+            // the JSON text must be one string value; what that string says is the step's result
+            let text = serde_json::to_string(p).unwrap_or_else(|e| format!("\"<serialize failed: {}>\"", e));
+            serde_json::from_str::<String>(&text).unwrap_or_else(|_| format!("<not a JSON string: {}>", text))
+        }
+        #[cfg(feature = "sd")]
+        fn de(s: &str) -> Result<GenericPurl<Self>, String> {
+            let js = serde_json::to_string(s).expect("json string");
+            serde_json::from_str::<GenericPurl<Self>>(&js).map_err(|_| "serde".to_owned())
+        }
+        #[cfg(not(feature = "sd"))]
+        fn ser(p: &GenericPurl<Self>) -> String {
+            p.to_string()
+        }
+        #[cfg(not(feature = "sd"))]
+        fn de(s: &str) -> Result<GenericPurl<Self>, String> {
+            GenericPurl::<Self>::from_str(s).map_err(|e| e.err_name())
+        }
+    };
+}
+impl SysShape for String {
+    sys_shape_serde!();
+}
+#[cfg(feature = "ss")]
+impl SysShape for purl::SmallString {
+    sys_shape_serde!();
+}
+#[cfg(feature = "pt")]
+impl SysShape for purl::PackageType {
+    sys_shape_serde!();
+    fn combined(t: &str, c: &str) -> Option<GenericPurlBuilder<Self>> {
+        <purl::PackageType as FromStr>::from_str(t).ok().map(|t| purl::Purl::builder_with_combined_name(t, c))
+    }
+    fn combined_name(p: &GenericPurl<Self>) -> Value {
+        cps(&p.combined_name())
+    }
+}
+
 fn builder_json<T: StShape>(b: &GenericPurlBuilder<T>) -> Value {
     json!({"st": cps(&b.package_type.st()), "parts": parts_json(&b.parts)})
 }
@@ -1016,17 +1068,47 @@ pub fn apply_qop(q: &mut purl::Qualifiers, op: &Value) -> Value {
                 Err(_) => qerr(),
             }
         },
-        "try_from_iter" => match purl::Qualifiers::try_from_iter(pairs_of(&op[1])) {
-            Ok(n) => {
-                *q = n;
-                json!({"ok": true})
-            },
-            Err(_) => qerr(),
+        "try_from_iter" => {
+            // the same pairs through iterators of every honest shape: exact size hint, a lower bound of 0
+            // with a tight, an absent and an enormous upper bound, and borrowed instead of owned strings
+            let pairs = pairs_of(&op[1]);
+            let borrowed: Vec<(&str, &str)> = pairs.iter().map(|(k, v)| (k.as_str(), v.as_str())).collect();
+            let forms = [
+                purl::Qualifiers::try_from_iter(pairs.clone()),
+                purl::Qualifiers::try_from_iter(pairs.clone().into_iter().filter(|_| true)),
+                purl::Qualifiers::try_from_iter(LooseHint(pairs.clone().into_iter(), None)),
+                purl::Qualifiers::try_from_iter(LooseHint(pairs.clone().into_iter(), Some(usize::MAX))),
+                purl::Qualifiers::try_from_iter(borrowed),
+            ];
+            let shown: Vec<Value> = forms.iter().map(|f| f.as_ref().map(quals_json).unwrap_or_else(|_| qerr())).collect();
+            if shown.iter().any(|x| x != &shown[0]) {
+                return json!({"iterator_shapes_disagree": shown});
+            }
+            let [first, ..] = forms;
+            match first {
+                Ok(n) => {
+                    *q = n;
+                    json!({"ok": true})
+                },
+                Err(_) => qerr(),
+            }
         },
         other => {
             eprintln!("unknown qualifier op {:?}", other);
             std::process::exit(2);
         },
+    }
+}
+
+/// An iterator that promises nothing about its length beyond what `Iterator` requires.
+struct LooseHint<I>(I, Option<usize>);
+impl<I: Iterator> Iterator for LooseHint<I> {
+    type Item = I::Item;
+    fn next(&mut self) -> Option<I::Item> {
+        self.0.next()
+    }
+    fn size_hint(&self) -> (usize, Option<usize>) {
+        (0, self.1)
     }
 }
 
@@ -1502,19 +1584,25 @@ fn respell(m: &str, s: &str) -> String {
 
 fn sys_inst<T>(ctx: &mut Ctx, inst: &str, case: &Value)
 where
-    T: StShape + Inst,
+    T: SysShape + Inst,
     <T as PurlShape>::Error: ErrName + From<<T as FromStr>::Err> + From<purl::ParseError>,
 {
     let mut b: Option<GenericPurlBuilder<T>> = None;
     let mut v: Option<GenericPurl<T>> = None;
+    let mut w: Option<GenericPurl<T>> = None;
     let mut s: Option<String> = None;
     for st in case["steps"].as_array().cloned().unwrap_or_default() {
         let step = &st["step"];
         let name = step[0].as_str().unwrap_or("");
         let mut err: Option<String> = None;
+        // what an observation step saw, next to what the specification says it must see
+        let mut seen: Option<(Value, Value)> = None;
         let r = catch_unwind(AssertUnwindSafe(|| match name {
             "new" => {
                 b = T::from_st(&from_cps(&step[1])).map(|t| GenericPurlBuilder::new(t, from_cps(&step[2])));
+            },
+            "new_combined" => {
+                b = T::combined(&from_cps(&step[1]), &from_cps(&step[2]));
             },
             "op" => {
                 if let Some(bb) = b.take() {
@@ -1542,6 +1630,11 @@ where
                     s = Some(p.to_string());
                 }
             },
+            "ser" => {
+                if let Some(p) = &v {
+                    s = Some(T::ser(p));
+                }
+            },
             "respell" => {
                 if let Some(x) = &s {
                     s = Some(respell(step[1].as_str().unwrap_or(""), x));
@@ -1555,6 +1648,44 @@ where
                     }
                 }
             },
+            "de" => {
+                if let Some(x) = &s {
+                    match T::de(x) {
+                        Ok(p) => v = Some(p),
+                        Err(e) => err = Some(e),
+                    }
+                }
+            },
+            "save" => {
+                w = v.clone();
+            },
+            "swap" => {
+                std::mem::swap(&mut v, &mut w);
+            },
+            "compare" => {
+                if let (Some(p), Some(q)) = (&v, &w) {
+                    let (sp, sq) = (p.to_string(), q.to_string());
+                    let got = json!({
+                        "eq": p == q, "ne": p != q, "eq_rev": q == p,
+                        "cmp_equal": p.cmp(q) == std::cmp::Ordering::Equal,
+                        "cmp_antisym": p.cmp(q) == q.cmp(p).reverse(),
+                        "partial_same": p.partial_cmp(q) == Some(p.cmp(q)),
+                        "hash_equal_or_differ": p != q || hash_of(p) == hash_of(q),
+                        "strings_equal": sp == sq,
+                    });
+                    let e = step[1] == json!(true);
+                    let exp = json!({
+                        "eq": e, "ne": !e, "eq_rev": e, "cmp_equal": e, "cmp_antisym": true, "partial_same": true,
+                        "hash_equal_or_differ": true, "strings_equal": e,
+                    });
+                    seen = Some((exp, got));
+                }
+            },
+            "combined_name" => {
+                if let Some(p) = &v {
+                    seen = Some((step[1].clone(), T::combined_name(p)));
+                }
+            },
             _ => {},
         }));
         let prop = match name {
@@ -1562,19 +1693,33 @@ where
             "into_builder" => "C10",
             "format" => "C03",
             "parse" => "C02",
+            "ser" | "de" => "C16",
+            "save" | "swap" | "compare" => "C19",
+            "new_combined" | "combined_name" => "C18",
             _ => "C09",
         };
         if r.is_err() {
             ctx.check("C06", "no panic in a session step", inst, false, &st["after"], &json!({"panic": true}));
             return;
         }
+        if let Some((exp, got)) = seen {
+            let what = if name == "compare" {
+                "two values of a session: ==, !=, cmp, partial_cmp, hash and the canonical strings agree with the specification's equality"
+            } else {
+                "combined_name() of a value reached in a session"
+            };
+            if !ctx.check(prop, what, inst, exp == got, &exp, &got) {
+                return;
+            }
+        }
         let obs = json!({
             "b": slot(b.as_ref().map(builder_json)),
             "v": slot(v.as_ref().map(value_json)),
+            "w": slot(w.as_ref().map(value_json)),
             "s": slot(s.as_ref().map(|x| cps(x))),
             "err": slot(err.map(|e| json!(e))),
         });
-        // error classes of failing builder steps are free (C09 demands refusal only)
+        // error classes of failing builder steps are free (C09 demands refusal only); serde carries no class
         let mut exp = st["after"].clone();
         let mut got = obs.clone();
         if name != "parse" && exp["err"]["some"] == json!(true) && got["err"]["some"] == json!(true) {
@@ -1585,9 +1730,9 @@ where
             return;
         }
         if let Some(p) = &v {
-            if name == "build" || name == "parse" {
+            if name == "build" || name == "parse" || name == "de" {
                 let o = outcome::<T, <T as PurlShape>::Error>(Ok(Ok(p.clone())));
-                universal(ctx, inst, p, &o, &[&st["after"]["v"]["x"]], if name == "parse" { "parse" } else { "build" });
+                universal(ctx, inst, p, &o, &[&st["after"]["v"]["x"]], if name == "build" { "build" } else { "parse" });
             }
         }
     }
